@@ -229,6 +229,43 @@ func checkC09(w *World, r *Report) {
 	r.Rule("R09.3", 6, "typestate: a map or disposal list that Close sets to nil (or empties) is index-assigned / appended elsewhere only after a re-check, inside the same critical section, of a condition that Close establishes before it snapshots the table: the field is nil, or the disposed flag is set")
 	r.Rule("R09.4", 2, "every go statement only waits on Done() of a context and then calls the idempotent Close")
 
+	checkDiscipline(w, r, la, nil)
+
+	checkLockHygiene(w, r, la)
+	checkTypestate(w, r, la)
+	checkGoStatements(w, r)
+}
+
+func orNone(s string) string {
+	if s == "" {
+		return "any lock"
+	}
+	return s
+}
+
+func isSyncType(t types.Type) bool {
+	n := namedOf(t)
+	return n != nil && n.Obj().Pkg() != nil && (n.Obj().Pkg().Path() == "sync" || n.Obj().Pkg().Path() == "sync/atomic")
+}
+
+// isAllocatingFunc reports whether fi itself contains a composite literal of the type.
+func isAllocatingFunc(w *World, fi *FuncInfo, named *types.Named) bool {
+	found := false
+	ast.Inspect(fi.Decl, func(n ast.Node) bool {
+		if cl, ok := n.(*ast.CompositeLit); ok {
+			if tv, ok := fi.Pkg.TypesInfo.Types[cl]; ok {
+				if nt := namedOf(tv.Type); nt != nil && nt.Obj() == named.Obj() {
+					found = true
+				}
+			}
+		}
+		return !found
+	})
+	return found
+}
+
+// checkDiscipline is rule R09.1 / R09.1u; filter restricts it to some structs.
+func checkDiscipline(w *World, r *Report, la *LockAnalysis, filter func(sharedStruct) bool) {
 	table := map[*types.Var]guardRow{}
 	for _, row := range guardTable() {
 		table[w.Field(w.pkgByShort(row.pkg), row.strct, row.field)] = row
@@ -291,6 +328,9 @@ func checkC09(w *World, r *Report) {
 	seq := map[string]int{}
 	for _, a := range accesses {
 		ss := structOf[a.Field]
+		if filter != nil && !filter(ss) {
+			continue
+		}
 		uname := "<package level>"
 		if a.Unit != nil {
 			uname = a.Unit.name
@@ -375,6 +415,9 @@ func checkC09(w *World, r *Report) {
 	for _, v := range uf {
 		as := untabled[v]
 		ss := structOf[v]
+		if filter != nil && !filter(ss) {
+			continue
+		}
 		construct := ss.name + "." + v.Name()
 		if isSyncType(v.Type()) {
 			r.OK("R09.1u", construct, v.Pos(), false, "synchronisation primitive")
@@ -414,35 +457,10 @@ func checkC09(w *World, r *Report) {
 		}
 	}
 
-	checkLockHygiene(w, r, la)
-	checkTypestate(w, r, la)
-	checkGoStatements(w, r)
 }
 
-func orNone(s string) string {
-	if s == "" {
-		return "any lock"
-	}
-	return s
-}
-
-func isSyncType(t types.Type) bool {
-	n := namedOf(t)
-	return n != nil && n.Obj().Pkg() != nil && (n.Obj().Pkg().Path() == "sync" || n.Obj().Pkg().Path() == "sync/atomic")
-}
-
-// isAllocatingFunc reports whether fi itself contains a composite literal of the type.
-func isAllocatingFunc(w *World, fi *FuncInfo, named *types.Named) bool {
-	found := false
-	ast.Inspect(fi.Decl, func(n ast.Node) bool {
-		if cl, ok := n.(*ast.CompositeLit); ok {
-			if tv, ok := fi.Pkg.TypesInfo.Types[cl]; ok {
-				if nt := namedOf(tv.Type); nt != nil && nt.Obj() == named.Obj() {
-					found = true
-				}
-			}
-		}
-		return !found
-	})
-	return found
+// checkRecordConfinement is the part of R09.1 about records shared between
+// requests (analysis cache entries, invokers, builders, descriptors).
+func checkRecordConfinement(w *World, r *Report, la *LockAnalysis) {
+	checkDiscipline(w, r, la, func(ss sharedStruct) bool { return ss.confined })
 }
